@@ -110,3 +110,12 @@ claim("C18", "DESIGN.md 5/C18",
       "sub-type / version, containment (one plugin call of a full PEL returns None / '' / null or raises, including "
       "ImportError / AttributeError: every other section must equal the well-behaved run and later sections must still "
       "reach their parser) and --skip-parser-plugins (no import at all). 34 cases, each 'Confirmed over all paths'.")
+
+claim("C19", "DESIGN.md 5/C19",
+      "Two solver obligations on the real parsePEL: (1) x -> y -> x inside one path over 22 catalogue pairs that share a "
+      "section class, a plugin, a cache key (other creator, SRC type, drawer type) or follow a damaged / plugin-failing "
+      "log, with one symbolic field in x and in y: first and third document must be equal; (2) one inductive step from "
+      "every valid state of the import caches (entry symbolically absent / cached, module symbolically present / "
+      "missing) for every scripted plugin behaviour: the document must equal the decode from the empty state and the "
+      "cache invariant must hold afterwards. Plus --all-pels forward / reverse on good-damaged-good directories. The "
+      "static inventory of mutated module/class-level state is reported in the evidence.")
